@@ -46,6 +46,18 @@ func (env *Env) evalBool(x Expr) T {
 	return b.T
 }
 
+func (env *Env) pcHas(t T) bool {
+	if env.st == nil {
+		return false
+	}
+	for _, c := range env.st.PC {
+		if c.S == t.S {
+			return true
+		}
+	}
+	return false
+}
+
 func (env *Env) evalInt(x Expr) VInt {
 	v := env.eval(x)
 	switch i := v.(type) {
@@ -132,7 +144,14 @@ func (env *Env) lookupIdent(name string) (Value, bool) {
 		if m, ok := p.Members[name]; ok {
 			switch g := m.(type) {
 			case *ssa.NamedConst:
-				return env.e.constVal(g.Value), true
+				v := env.e.constVal(g.Value)
+				if b, ok := g.Value.Type().(*types.Basic); ok && b.Info()&types.IsUntyped != 0 {
+					if vi, ok := v.(VInt); ok {
+						vi.Untyped = true
+						v = vi
+					}
+				}
+				return v, true
 			case *ssa.Global:
 				elem := g.Type().(*types.Pointer).Elem()
 				if isErrorType(elem) {
@@ -355,13 +374,28 @@ func (env *Env) selectField(v Value, name string) Value {
 func (env *Env) evalBin(n *EBin) Value {
 	switch n.Op {
 	case "&&":
-		return VBool{And(env.evalBool(n.L), env.evalBool(n.R))}
+		lt := env.evalBool(n.L)
+		if (lt.Const && lt.V == 0) || env.pcHas(Not(lt)) {
+			return VBool{False}
+		}
+		return VBool{And(lt, env.evalBool(n.R))}
 	case "||":
-		return VBool{Or(env.evalBool(n.L), env.evalBool(n.R))}
+		lt := env.evalBool(n.L)
+		if (lt.Const && lt.V == 1) || env.pcHas(lt) {
+			return VBool{True}
+		}
+		return VBool{Or(lt, env.evalBool(n.R))}
 	case "==>":
 		l := env.sub()
 		l.pos = !env.pos
-		return VBool{Implies(l.evalBool(n.L), env.evalBool(n.R))}
+		lt := l.evalBool(n.L)
+		// short-circuit: the antecedent is false on this path (syntactically
+		// or by a literal conjunct of the path condition); the consequent may
+		// mention values that do not exist on this path (nil results)
+		if (lt.Const && lt.V == 0) || env.pcHas(Not(lt)) {
+			return VBool{True}
+		}
+		return VBool{Implies(lt, env.evalBool(n.R))}
 	case "<==>":
 		// mixed polarity: evaluate both sides as assumptions-style quantifiers
 		l := env.sub()
